@@ -361,7 +361,9 @@ def gen_case(rng, k):
                vectors=(kind in ("3d", "3dh") and rng.random() < 0.5), obscov=(0.7 if kind == "2dcov" else 0.0), hdcov=(1.0 if kind == "levcov" else 0.0),
                extern_pool=N.EXTERN_SAFE)
     gross = False
-    if rng.random() < 0.2 and kind in ("2d", "2dang"):       # a gross error -> outlying absolute term -> observation removed
+    # a gross error -> outlying absolute term -> observation removed (also inside correlated <obs> clusters: the
+    # exported cluster must still carry all its observations with the full covariance matrix)
+    if (rng.random() < 0.2 and kind in ("2d", "2dang")) or (kind == "2dcov" and rng.random() < 0.4):
         o = rng.choice([o for o in net["obs"] if o["kind"] == "obs"])
         it = rng.choice([i for i in o["items"] if i["t"] == "distance"] or o["items"])
         it["val"] += 50.0
